@@ -337,6 +337,9 @@ func quote(s string) string {
 // handleDir chooses either the out dir or the actual output location depending on the 'dir' flag.
 func handleDir(outDir, output string, dir bool) string {
 	if dir {
+		if outDir == "" {
+			return "." // the root package; an empty string would not be a path (or even a word)
+		}
 		return outDir
 	}
 	return filepath.Join(outDir, output)
